@@ -85,6 +85,7 @@ def _start_guardian(rec: Any, out: str) -> None:
 
 
 GUARD_S = 150
+STALL_S = 240  # parent side: no case started in a shard for this long -> the shard is killed (inconclusive for it)
 
 
 def worker(args: argparse.Namespace) -> int:
@@ -149,6 +150,7 @@ def parent(args: argparse.Namespace) -> int:
         out = WORK_DIR / f"{pid}-{args.tier}-{os.getpid()}-{i}.json"
         if out.exists():
             out.unlink()
+        Path(str(out) + ".hb").unlink(missing_ok=True)
         env = dict(os.environ)
         env["PYTHONHASHSEED"] = str(hashseeds[(i + base_seed) % len(hashseeds)])
         env["PYTHONDONTWRITEBYTECODE"] = "1"
@@ -169,10 +171,17 @@ def parent(args: argparse.Namespace) -> int:
             i, p, out, started = item
             rc = p.poll()
             if rc is None:
+                hb = Path(str(out) + ".hb")
+                stalled = (time.time() - hb.stat().st_mtime) if hb.exists() else (time.monotonic() - started)
                 if time.monotonic() - started > watchdog + 60:
                     p.kill()
                     running.remove(item)
                     problems.append(f"shard {i} killed by wall-clock watchdog")
+                elif stalled > STALL_S:
+                    p.kill()
+                    running.remove(item)
+                    hb.unlink(missing_ok=True)
+                    problems.append(f"shard {i} made no progress for {STALL_S} s (spin outside the reach of its own watchdogs); killed")
                 continue
             running.remove(item)
             logp = WORK_DIR / f"{pid}-{args.tier}-{os.getpid()}-{i}.log"
@@ -182,6 +191,7 @@ def parent(args: argparse.Namespace) -> int:
             else:
                 results.append(json.loads(out.read_text()))
                 out.unlink()
+                Path(str(out) + ".hb").unlink(missing_ok=True)
                 logp.unlink(missing_ok=True)
 
     return conclude(prop, args.tier, base_seed, budget, results, problems, t0)
